@@ -171,7 +171,8 @@ def _key_of(atom):
     if a[0] == 'cmp':
         return ('cmp', a[1], a[2])
     if a[0] == 'rel':
-        return ('rel', a[1], a[2], a[3])
+        # `x in A` and `x in B` are tests on the same value against another container
+        return ('rel', a[1], a[2]) if a[2] == 'in' else ('rel', a[1], a[2], a[3])
     return ('atom', a[1])
 
 
@@ -275,7 +276,8 @@ def _test_atoms(f, test):
                 return 'text', [json.dumps(['atom', _subst_text(f, test), True])]
             parts.append(json.dumps(_truthy(canonical_atom(f, sub[0][0], sub[0][1]))))
         return 'or', sorted(parts)
-    atoms = decompose(test, True)
+    atoms = [(e, p) for e, p in decompose(test, True)
+             if not (isinstance(e, ast.Constant) and bool(e.value) == p)]   # `and True`
     return 'and', sorted(json.dumps(_truthy(canonical_atom(f, e, p))) for e, p in atoms)
 
 
